@@ -16,8 +16,8 @@ def sym_hhmm(path, tag):
     h = dig[0] * 10 + dig[1]
     m = dig[2] * 10 + dig[3]
     path.constrain(z3.And(bterm(h <= 23), bterm(m <= 59)))
-    h = SymInt.mk(h.t, 0, 23)
-    m = SymInt.mk(m.t, 0, 59)
+    h = h.refine(0, 23)
+    m = m.refine(0, 59)
     text = SymSeq("str", [U8(d[0], True), U8(d[1], True), 58, U8(d[2], True), U8(d[3], True)])
     return text, h, m
 
